@@ -39,6 +39,11 @@ def run_scenario(sc):
         if sc.get("nat_sum"):
             try:
                 states = sorted(sc["cases"][-1]["states"])
+                if sc.get("nat_sum_history"):
+                    # earlier summaries on the same client (other weights / base / levels, then the same arguments): the last one must not care
+                    last["client"].get_national_summary_votes_estimates({s: 1.0 for s in states}, 0, [0.6])
+                    last["client"].get_national_summary_votes_estimates({s: float(i + 2) for i, s in enumerate(states)}, 3, [0.7, 0.9])
+                    last["client"].get_national_summary_votes_estimates(None, 1, [0.99, 0.5])
                 df = last["client"].get_national_summary_votes_estimates({s: float(i + 2) for i, s in enumerate(states)}, 3, [0.7, 0.9])
                 res["nat_sum"] = canon({"nat_sum": df})
             except Exception as e:  # noqa: BLE001
